@@ -274,28 +274,8 @@ def run(prog, rep, tier):
                                 bounded = True
                     rep.ob('R13.3', bounded, 'R13.3|%s|%s|buffer-use-bounded-by-count' % (body.nkey, t.cmethod),
                            '%s consumes buf[..count]' % t.cmethod if bounded else '%s consumes the caller buffer beyond the count actually read' % t.cargs[:80], body.loc(b.idx))
-    # chunk loads feeding the cipher are complete reads
+    chunk_loads_complete(prog, rep, 'R13.3')
     mla = prog.crates['mla']
-    nd = 0
-    for body in mla.bodies:
-        for b in body.calls():
-            if cnorm(b.term) in ('crypto::aesgcm::AesGcm256::decrypt', 'crypto::aesgcm::AesGcm256::decrypt_unauthenticated') and norm(body.defpath).startswith('layers::encrypt::'):
-                nd += 1
-                o = origins(body, [b.term.args[1].place[0]])
-                owners = [l for l in o.locals if body.lty(l).startswith('std::vec::Vec<u8')]
-                fills = [f for l in owners for f in mutarg_defs(body).get(l, [])]
-                rte = [f for f in fills if f[1].cmethod == 'read_to_end']
-                raw = [f for f in fills if f[1].cmethod in RAW_R or f[1].cmethod == 'read_exact']
-                ok = bool(rte) and not raw
-                for f in rte:
-                    ro = origins(body, [f[1].args[0].place[0]])
-                    tk = [body.blocks[c].term for c in ro.calls if body.blocks[c].term.cmethod == 'take' and body.blocks[c].term.ctrait == 'std::io::Read']
-                    okt = len(tk) == 1 and const_eval(body, tk[0].args[1]) is not None or (len(tk) == 1 and (const_of(body, tk[0].args[1]) or {}).get('def'))
-                    inner = len(tk) == 1 and any(ff[-1] == 'inner' for ff in origins(body, [tk[0].args[0].place[0]], through_calls=False).fields)
-                    ok = ok and bool(okt) and inner
-                rep.ob('R13.3', ok, 'R13.3|%s|chunk-load-complete' % body.nkey, 'chunk buffer filled by read_to_end(take(inner, constant))' if ok else
-                       'the chunk handed to the cipher is not filled by read_to_end on a bounded take of the inner reader', body.loc(b.idx))
-    rep.floor('R13.3.chunk', nd, 2, 'decrypt sites in the encryption layer')
 
     # ---------------- R13.5 a block decompressor always starts from an absolute position of the inner layer
     # (how many compressed bytes the previous decompressor actually pulled from its source depends on how the source splits its reads: the next
@@ -379,6 +359,33 @@ def run(prog, rep, tier):
 
     # ---------------- R13.8 an error of the destination keeps its kind on the way up (write_all / io::copy / brotli retry only `Interrupted`)
     r13_8(prog, rep)
+
+
+def chunk_loads_complete(prog, rep, RULE='R13.3'):
+    """chunk loads feeding the cipher are complete reads: the buffer handed to decrypt is filled by read_to_end(take(inner, constant)), never by one raw
+    read (shared with C03: a short read would make an unaltered archive fail its tag)"""
+    mla = prog.crates['mla']
+    nd = 0
+    for body in mla.bodies:
+        for b in body.calls():
+            if cnorm(b.term) in ('crypto::aesgcm::AesGcm256::decrypt', 'crypto::aesgcm::AesGcm256::decrypt_unauthenticated') and norm(body.defpath).startswith('layers::encrypt::'):
+                nd += 1
+                o = origins(body, [b.term.args[1].place[0]])
+                owners = [l for l in o.locals if body.lty(l).startswith('std::vec::Vec<u8')]
+                fills = [f for l in owners for f in mutarg_defs(body).get(l, [])]
+                rte = [f for f in fills if f[1].cmethod == 'read_to_end']
+                raw = [f for f in fills if f[1].cmethod in RAW_R or f[1].cmethod == 'read_exact']
+                ok = bool(rte) and not raw
+                for f in rte:
+                    ro = origins(body, [f[1].args[0].place[0]])
+                    tk = [body.blocks[c].term for c in ro.calls if body.blocks[c].term.cmethod == 'take' and body.blocks[c].term.ctrait == 'std::io::Read']
+                    okt = len(tk) == 1 and const_eval(body, tk[0].args[1]) is not None or (len(tk) == 1 and (const_of(body, tk[0].args[1]) or {}).get('def'))
+                    inner = len(tk) == 1 and any(ff[-1] == 'inner' for ff in origins(body, [tk[0].args[0].place[0]], through_calls=False).fields)
+                    ok = ok and bool(okt) and inner
+                rep.ob(RULE, ok, RULE + '|%s|chunk-load-complete' % body.nkey, 'chunk buffer filled by read_to_end(take(inner, constant))' if ok else
+                       'the chunk handed to the cipher is not filled by read_to_end on a bounded take of the inner reader: a source that returns fewer bytes than asked makes '
+                       'an intact chunk fail its tag', body.loc(b.idx))
+    rep.floor(RULE + '.chunk', nd, 2, 'decrypt sites in the encryption layer')
 
 
 IOERR = ('std::io::Error', '&std::io::Error', '&mut std::io::Error')
